@@ -89,6 +89,27 @@ func c15Exec(worker int, j c15Job, window int, fail func(sig, msg string)) (eval
 		addrs = append(addrs, a)
 	}
 	style := wsim.Style(j.Style)
+	// model of the heights whose hash the wallet remembers (only relevant when
+	// the reorg window is scaled down): connecting h stores h and prunes h-window.
+	stored := map[int32]bool{0: true}
+	scaled := window < 1000
+	noteConnect := func(h int32) {
+		stored[h] = true
+		if st := h - int32(window); st > 0 {
+			delete(stored, st)
+		}
+	}
+	canWalkBack := func(from int32, depth int) bool {
+		if !scaled {
+			return true
+		}
+		for h := from; h >= from-int32(depth) && h >= 0; h-- {
+			if !stored[h] {
+				return false
+			}
+		}
+		return true
+	}
 	var txs []*c15Tx
 	nFund, branch := 0, 0
 	var lastDisc *wsim.Block
@@ -214,10 +235,12 @@ func c15Exec(worker int, j c15Job, window int, fail func(sig, msg string)) (eval
 		case stExtEmpty:
 			b := c.NewBlock(c.Tip, nextBranch(), nil)
 			s.Connect(b, style)
+			noteConnect(b.Height)
 		case stExtFund:
 			b := c.NewBlock(c.Tip, nextBranch(), []*wire.MsgTx{fund()})
 			place(b)
 			s.Connect(b, style)
+			noteConnect(b.Height)
 		case stExtSpend:
 			sp := spend()
 			if sp == nil {
@@ -227,6 +250,7 @@ func c15Exec(worker int, j c15Job, window int, fail func(sig, msg string)) (eval
 			b := c.NewBlock(c.Tip, nextBranch(), []*wire.MsgTx{sp})
 			place(b)
 			s.Connect(b, style)
+			noteConnect(b.Height)
 		case stExtRemine:
 			re := unconfirmedByReorg()
 			if len(re) == 0 {
@@ -236,8 +260,11 @@ func c15Exec(worker int, j c15Job, window int, fail func(sig, msg string)) (eval
 			b := c.NewBlock(c.Tip, nextBranch(), re)
 			place(b)
 			s.Connect(b, style)
+			noteConnect(b.Height)
 		case stDisc:
-			if c.Tip.Height == 0 {
+			if c.Tip.Height == 0 || !canWalkBack(c.Tip.Height, 1) {
+				// (scaled window: the hash below the tip has been pruned, the
+				// reorg would be deeper than the window)
 				applied = false
 				break
 			}
@@ -259,10 +286,14 @@ func c15Exec(worker int, j c15Job, window int, fail func(sig, msg string)) (eval
 			b := c.NewBlock(c.Tip.Prev, nextBranch()+"-sibling", nil)
 			s.NotifyDisconnected(b)
 		case stRestart:
+			if !canWalkBack(c.Tip.Height, 0) {
+				applied = false
+				break
+			}
 			restart()
 		case stOffline1, stOfflineRe1, stOfflineRe2:
 			drop := map[c15Step]int{stOffline1: 0, stOfflineRe1: 1, stOfflineRe2: 2}[step]
-			if int(c.Tip.Height) < drop {
+			if int(c.Tip.Height) < drop || !canWalkBack(c.Tip.Height, drop) {
 				applied = false
 				break
 			}
@@ -283,6 +314,7 @@ func c15Exec(worker int, j c15Job, window int, fail func(sig, msg string)) (eval
 				b := c.NewBlock(c.Tip, nextBranch(), btx)
 				place(b)
 				c.Tip = b
+				noteConnect(b.Height)
 			}
 			if err := s.Open(0); err != nil {
 				ev.Fatal("reopen: %v", err)
@@ -310,6 +342,21 @@ func runC15(args []string) {
 	}
 	if !ev.IsWorker() {
 		cov := run.RunSharded(16, append([]string{"c15"}, args...))
+		if bin := os.Getenv("C15_SCALED_BIN"); bin != "" {
+			// second build of the same check with waddrmgr.MaxReorgDepth scaled to 3 (overlay
+			// generated from the current tree): stale-height pruning and reorgs that reach
+			// the edge of the window are inside the bound there
+			cov2 := run.RunShardedBin(bin, []string{"C15_WINDOW=3", "VERIF_TIER=quick"}, 16, []string{"c15", "quick"})
+			for _, k := range []string{"transitions", "traces_validated_against_impl", "evaluations", "distinct_nontrivial", "executions", "states"} {
+				a, _ := cov[k].(int)
+				b, _ := cov2[k].(int)
+				cov[k] = a + b
+			}
+			cov["scaled_window_executions"] = cov2["executions"]
+			if e, ok := cov2["exhaustive"].(bool); ok && !e {
+				cov["exhaustive"] = false
+			}
+		}
 		cov["rule"] = "every sequence of evolution steps up to the depth over {extend (empty / paying the wallet / spending a wallet output / re-confirming reorged txs), disconnect, duplicate disconnect, stale disconnect (above tip, sibling of tip), restart, offline extension, offline reorg depth 1 and 2} x 3 notification orders (btcd, bitcoind, legacy), on the real wallet through its notification loop and start-up sync; after every step: SyncedTo = model tip, BlockHash(h) = best-chain hash for every h in the window, every tx block field on the best chain and equal to the model; non-trivial = sequences containing a disconnect or an offline reorg followed by another step"
 		cov["reorg_window"] = window
 		if _, ok := cov["samples"]; !ok {
